@@ -51,7 +51,7 @@ func init() {
 			}
 			var cs []ev.Case
 			for rep := 0; rep < reps; rep++ {
-				for _, n := range []int{2, 4, 8, 16} {
+				for _, n := range []int{16, 8, 4, 2} {
 					cs = append(cs, ev.MkCase("round", c19Round{N: n, Rep: rep, Seed: seed}))
 				}
 			}
@@ -91,13 +91,32 @@ func c19Worker(seed int64, id int, useUDP bool, concurrent bool) (transcript []s
 	f2, _, _ := genFSR(r, 2, 4)
 	f1[18], f1[15] = 0, f1[15]&0x3f|0x80 // linear, two's complement
 	repo := refbmc.NewRepo([]refbmc.SDRRecord{{ID: uint16(10 + id), Type: 1, Body: f1}, {ID: 0x200, Type: 2, Body: rbytes(r, 24)}, {ID: 0x201, Type: 1, Body: f2}}, 90000)
-	cssrv := &refbmc.CipherSuiteServer{Channel: 1, Data: refbmc.EncodeSuiteRecords([]refbmc.SuiteRecord{{ID: 3, Auth: 1, Integs: []byte{1}, Confs: []byte{1}}, {ID: 17, Auth: 3, Integs: []byte{4}, Confs: []byte{1}}, {ID: 8, Auth: 2, Integs: []byte{2}, Confs: []byte{1}}})}
+	advertised := []refbmc.SuiteRecord{{ID: 3, Auth: 1, Integs: []byte{1}, Confs: []byte{1}}, {ID: 17, Auth: 3, Integs: []byte{4}, Confs: []byte{1}}, {ID: 8, Auth: 2, Integs: []byte{2}, Confs: []byte{1}}}
+	switch id % 4 {
+	case 1:
+		advertised = advertised[:1] // an older BMC: suite 3 only
+		cfg.Suites = []refbmc.Suite{{Auth: 1, Integ: 1, Conf: 1}}
+	case 3:
+		advertised = advertised[1:] // a hardened BMC: no suite 3
+		cfg.Suites = []refbmc.Suite{{Auth: 3, Integ: 4, Conf: 1}, {Auth: 2, Integ: 2, Conf: 1}}
+	}
+	b.Cfg.Suites = cfg.Suites
+	cssrv := &refbmc.CipherSuiteServer{Channel: 1, Data: refbmc.EncodeSuiteRecords(advertised)}
+	oddCodes := []byte{0xc5, 0xc9, 0xcb, 0x81, 0xd3, 0xc2, 0xce, 0x90, 0xd5, 0xc7}
+	oddN := 0
 	sd := &refbmc.SensorDevice{}
 	sd.Set(f1[1]&3, f1[2], []byte{byte(0x30 + id), 0x40, 0})
 	dcm := &refbmc.DCMISensorInfo{PageSize: 2 + id%5, IDs: map[[2]byte][]uint16{{1, 0x40}: {1, 2, 3, uint16(id)}, {1, 0x41}: {9, 8}, {1, 0x42}: {}}}
 	guid := rbytes(r, 16)
 	devid := []byte{0x20, 0x81, byte(id), 0x15, 0x02, 0xbf, 0x57, 0x01, 0x00, 0x34, 0x12, 1, 2, 3, 4}
-	inner := refbmc.Chain(repo.Handle, cssrv.Handle, sd.Handle, dcm.Handle, refbmc.Fixed(6, 0x37, 0, guid), refbmc.Fixed(6, 0x01, 0, devid),
+	odd := func(e *refbmc.Event) (byte, []byte, bool) {
+		if e.NetFn == 6 && e.Cmd == 0x70 {
+			oddN++
+			return oddCodes[(oddN+id)%len(oddCodes)], nil, true
+		}
+		return 0, nil, false
+	}
+	inner := refbmc.Chain(odd, repo.Handle, cssrv.Handle, sd.Handle, dcm.Handle, refbmc.Fixed(6, 0x37, 0, guid), refbmc.Fixed(6, 0x01, 0, devid),
 		refbmc.Fixed(6, 0x38, 0, []byte{1, 0x80, 0x14, 0x02, 0, 0, 0, byte(id)}), refbmc.Fixed(0, 0x01, 0, []byte{0x21, 0x10, 0x40, byte(id)}), refbmc.Fixed(6, 0x3c, 0, nil))
 	b.Handler = func(e *refbmc.Event) (byte, []byte, bool) {
 		c19Stamp(id)
@@ -123,7 +142,7 @@ func c19Worker(seed int64, id int, useUDP bool, concurrent bool) (transcript []s
 		if err != nil {
 			return nil, "udp dial: " + err.Error()
 		}
-		defer st.Close()
+		defer func() { st.Close() }()
 	} else {
 		t := memtr.New(func(n int, req []byte) ([]byte, error) {
 			c19Stamp(id)
@@ -135,17 +154,42 @@ func c19Worker(seed int64, id int, useUDP bool, concurrent bool) (transcript []s
 		t.DropBytes = true
 		st = bmc.VerifNewV2SessionlessTransport(t, 4*time.Second, &backoff.ZeroBackOff{})
 	}
-	ctx, cancel := context.WithTimeout(context.Background(), 120*time.Second)
+	ctx, cancel := context.WithTimeout(context.Background(), 40*time.Second)
 	defer cancel()
 	rec := func(call string, v any, err error) {
 		transcript = append(transcript, fmt.Sprintf("%s => %v err=%v", call, v, err != nil))
 	}
-	suites := []ipmi.CipherSuite{ipmi.CipherSuite3, ipmi.CipherSuite17, {AuthenticationAlgorithm: 2, IntegrityAlgorithm: 2, ConfidentialityAlgorithm: 1}}
+	var olds []*bmc.V2SessionlessTransport
+	defer func() {
+		if useUDP {
+			for _, o := range olds {
+				o.Close()
+			}
+		}
+	}()
+	dial := func() *bmc.V2SessionlessTransport {
+		if useUDP {
+			n, err := bmc.DialV2(srv.Addr(), bmc.WithTimeout(4*time.Second))
+			if err != nil {
+				return nil
+			}
+			return n
+		}
+		t := memtr.New(func(n int, req []byte) ([]byte, error) {
+			c19Stamp(id)
+			rsp := b.Handle(req)
+			runtime.Gosched()
+			return rsp, nil
+		})
+		t.Mode = memtr.Window
+		t.DropBytes = true
+		return bmc.VerifNewV2SessionlessTransport(t, 4*time.Second, &backoff.ZeroBackOff{})
+	}
 	var sess *bmc.V2Session
 	open := func(k int) {
 		opts := &bmc.V2SessionOpts{SessionOpts: bmc.SessionOpts{Username: cfg.Username, Password: cfg.Password, MaxPrivilegeLevel: ipmi.PrivilegeLevelAdministrator}}
 		if k >= 0 {
-			opts.CipherSuites = []ipmi.CipherSuite{suites[k%3]}
+			opts.CipherSuites = []ipmi.CipherSuite{libSuite(cfg.Suites[k%len(cfg.Suites)])}
 		}
 		s, err := st.NewV2Session(ctx, opts)
 		if err == nil {
@@ -156,12 +200,38 @@ func c19Worker(seed int64, id int, useUDP bool, concurrent bool) (transcript []s
 		}
 	}
 	nops := 24 + r.Intn(12)
+	// two scripted personalities besides the random one: a connection that keeps being used
+	// across session open/close cycles, and one that keeps dialling fresh connections
+	var script []int
+	switch id % 4 {
+	case 0:
+		for k := 0; k < 8; k++ {
+			script = append(script, 2, 3, 100, 0, 0, 9)
+		}
+	case 2:
+		for k := 0; k < 16; k++ {
+			script = append(script, 13, 0, 0)
+		}
+	}
+	if len(script) > 0 {
+		nops = len(script)
+	}
 	for i := 0; i < nops; i++ {
-		op := r.Intn(12)
-		if sess == nil && op >= 3 {
+		op := r.Intn(15)
+		if len(script) > 0 {
+			op = script[i]
+		}
+		if sess == nil && op >= 3 && op != 13 && op != 100 {
 			op = 2
 		}
 		switch op {
+		case 100:
+			// close the session but keep using the connection
+			if sess != nil {
+				rec("close", nil, sess.Close(ctx))
+				sess = nil
+				runtime.Gosched()
+			}
 		case 0:
 			g, err := st.GetSystemGUID(ctx)
 			rec("sl-guid", g, err)
@@ -228,6 +298,24 @@ func c19Worker(seed int64, id int, useUDP bool, concurrent bool) (transcript []s
 		case 11:
 			_, err := sess.SetSessionPrivilegeLevel(ctx, ipmi.PrivilegeLevelCallback)
 			rec("serfail", nil, err)
+		case 12, 14:
+			// a command the BMC answers with a completion code the library has no description for
+			cmd := &RawCmd{Op: ipmi.Operation{Function: ipmi.NetworkFunctionAppReq, Command: 0x70}, NoReq: true, NoRsp: true}
+			code, err := sess.SendCommand(ctx, cmd)
+			rec("odd-code", fmt.Sprintf("%v", code), err)
+		case 13:
+			// the session (if any) is closed, the old connection is kept open and a new one is dialled
+			if sess != nil {
+				rec("close", nil, sess.Close(ctx))
+				sess = nil
+			}
+			if n := dial(); n != nil {
+				olds = append(olds, st)
+				g, err := st.GetSystemGUID(ctx) // the old connection is still usable
+				rec("old-conn-guid", g, err)
+				st = n
+				rec("redial", nil, nil)
+			}
 		}
 	}
 	if sess != nil {
@@ -274,7 +362,31 @@ func c19Exec(run *ev.Run, c ev.Case) {
 	var rd c19Round
 	c.Decode(&rd)
 	run.Eval(1)
-	// solo references (cached per worker identity)
+	c19TraceMu.Lock()
+	c19Trace = c19Trace[:0]
+	c19TraceMu.Unlock()
+	c19TraceOn.Store(true)
+	got := make([][]string, rd.N)
+	incs := make([]string, rd.N)
+	var wg sync.WaitGroup
+	startGate := make(chan struct{})
+	for w := 0; w < rd.N; w++ {
+		wg.Add(1)
+		go func(w int) {
+			defer wg.Done()
+			<-startGate
+			pv, st := safe(func() { got[w], incs[w] = c19Worker(rd.Seed, w, w%2 == 0, true) })
+			if pv != nil {
+				incs[w] = "panicked"
+				run.Violation("C19:panic-under-concurrency:"+panicSite(st), fmt.Sprintf("round N=%d rep %d worker %d panicked while other connections were in use: %v\n%s", rd.N, rd.Rep, w, pv, trimStack(st)), c, nil)
+			}
+		}(w)
+	}
+	close(startGate)
+	wg.Wait()
+	c19TraceOn.Store(false)
+	// solo references (cached per worker identity), computed AFTER the concurrent run so that
+	// first-use effects (lazily initialised shared state) happen under concurrency
 	solo := make([][]string, rd.N)
 	for w := 0; w < rd.N; w++ {
 		key := fmt.Sprintf("%d/%d/%v", rd.Seed, w, w%2 == 0)
@@ -291,25 +403,6 @@ func c19Exec(run *ev.Run, c ev.Case) {
 		solo[w] = t
 	}
 	c19TraceMu.Lock()
-	c19Trace = c19Trace[:0]
-	c19TraceMu.Unlock()
-	c19TraceOn.Store(true)
-	got := make([][]string, rd.N)
-	incs := make([]string, rd.N)
-	var wg sync.WaitGroup
-	startGate := make(chan struct{})
-	for w := 0; w < rd.N; w++ {
-		wg.Add(1)
-		go func(w int) {
-			defer wg.Done()
-			<-startGate
-			got[w], incs[w] = c19Worker(rd.Seed, w, w%2 == 0, true)
-		}(w)
-	}
-	close(startGate)
-	wg.Wait()
-	c19TraceOn.Store(false)
-	c19TraceMu.Lock()
 	trace := append([]int(nil), c19Trace...)
 	c19TraceMu.Unlock()
 	cross := 0
@@ -324,6 +417,7 @@ func c19Exec(run *ev.Run, c ev.Case) {
 	if cross > 0 {
 		run.Nontrivial(fmt.Sprintf("%x", sig[:8]))
 	}
+	verified, reproduced := 0, 0
 	for w := 0; w < rd.N; w++ {
 		if incs[w] != "" {
 			run.Inconclusive(incs[w])
@@ -334,6 +428,17 @@ func c19Exec(run *ev.Run, c ev.Case) {
 		if c19Digest(got[w]) == c19Digest(solo[w]) {
 			continue
 		}
+		if verified >= 2 {
+			// re-verification is bounded to two workers per round (each attempt may run into timeouts on a broken tree)
+			diff := c19FirstDiff(solo[w], got[w])
+			if reproduced > 0 {
+				run.Violation("C19:interference", fmt.Sprintf("round N=%d rep %d worker %d (udp %v): results or datagrams differ from the same workload run alone (not re-verified individually; other workers of this round reproduced): %s", rd.N, rd.Rep, w, w%2 == 0, diff), c, nil)
+			} else {
+				run.Inconclusive(fmt.Sprintf("round N=%d rep %d worker %d: transcript differed, not re-verified (%s)", rd.N, rd.Rep, w, diff))
+			}
+			continue
+		}
+		verified++
 		// does it reproduce? run the same worker again, concurrently with a peer
 		repro := 0
 		for try := 0; try < 2; try++ {
@@ -352,6 +457,7 @@ func c19Exec(run *ev.Run, c ev.Case) {
 			run.Inconclusive(fmt.Sprintf("round N=%d rep %d worker %d: transcript differed once and did not reproduce (%s)", rd.N, rd.Rep, w, diff))
 			continue
 		}
+		reproduced++
 		run.Violation("C19:interference", fmt.Sprintf("round N=%d rep %d worker %d (udp %v): results or datagrams differ from the same workload run alone (reproduced %d/2): %s", rd.N, rd.Rep, w, w%2 == 0, repro, diff), c, nil)
 	}
 	if rd.Rep == 0 {
@@ -372,7 +478,28 @@ func c19FirstDiff(a, b []string) string {
 var c19FrameRe = regexp.MustCompile(`^\s+(\S+)\(\)$`)
 
 // c19Post parses the race detector's log.
+// c19Canary: package-level state must be as at start-up: a handshake with
+// default preferences against a BMC advertising suites 3 and 17 proposes 17.
+func c19Canary(run *ev.Run, when string) {
+	r := rng(7, "c19canary")
+	cfg := defaultCfg(r)
+	e := NewEnv(cfg, memtr.Window)
+	server := &refbmc.CipherSuiteServer{Channel: 1, Data: refbmc.EncodeSuiteRecords([]refbmc.SuiteRecord{{ID: 3, Auth: 1, Integs: []byte{1}, Confs: []byte{1}}, {ID: 17, Auth: 3, Integs: []byte{4}, Confs: []byte{1}}})}
+	e.BMC.Handler = server.Handle
+	ctx, cancel := e.LimitCtx(20)
+	defer cancel()
+	s, err := e.ST.NewV2Session(ctx, &bmc.V2SessionOpts{SessionOpts: bmc.SessionOpts{Username: cfg.Username, Password: cfg.Password, MaxPrivilegeLevel: ipmi.PrivilegeLevelAdministrator}})
+	if err != nil || s.AuthenticationAlgorithm != ipmi.AuthenticationAlgorithmHMACSHA256 {
+		alg := "none"
+		if s != nil {
+			alg = s.AuthenticationAlgorithm.String()
+		}
+		run.Violation("C19:shared-state-changed", fmt.Sprintf("%s: a default-preference handshake against a BMC advertising suites 3 and 17 gave err=%v, authentication %s (expected suite 17): package-level state was modified by other connections", when, err, alg), ev.MkCase("round", c19Round{N: 16}), nil)
+	}
+}
+
 func c19Post(run *ev.Run, tier string, seed int64) {
+	c19Canary(run, "after all rounds")
 	prefix := os.Getenv("VERIF_RACE_LOG")
 	if prefix == "" {
 		run.Inconclusive("VERIF_RACE_LOG not set: race reports not inspected")
